@@ -1815,8 +1815,8 @@ def priority_cases(n, top):
 
 
 def run(ctx):
-    ctx.search("attacher", attacher_cases(), quick=700, thorough=4000)
-    ctx.search("via", via_cases(), quick=620, thorough=3000)
+    ctx.search("attacher", attacher_cases(), quick=700, thorough=2500)
+    ctx.search("via", via_cases(), quick=620, thorough=2000)
     ctx.enumerate("attacher", priority_cases(3, 3), name="priority-orders-3")
     if not ctx.quick():
         ctx.enumerate("attacher", priority_cases(4, 4), name="priority-orders-4")
